@@ -215,10 +215,10 @@ impl Property for C02 {
         256
     }
     fn required_counters(&self) -> Vec<&'static str> {
-        vec!["walks", "shape_plain", "shape_prefixed", "shape_rooted", "shape_dots", "pruned_directories", "walk_root_expected", "base_noncanonical", "component_program_checks"]
+        vec!["walks", "trees_with_links", "pruned_links", "shape_plain", "shape_prefixed", "shape_rooted", "shape_dots", "pruned_directories", "walk_root_expected", "base_noncanonical", "component_program_checks"]
     }
     fn decode(&self, t: &mut Tape) -> Case {
-        let tree = gen_tree(t, &TreeCfg::default());
+        let tree = gen_tree(t, &TreeCfg { links: true, ..TreeCfg::default() });
         let base = gen_base(t, &tree);
         let shape = gen_shape(t, &tree, &base);
         let glob = gen_expr(t, &fs_glob_cfg(&tree));
@@ -323,6 +323,22 @@ impl Property for C02 {
         if !matches!(case.base, Base::Abs | Base::Sub(_) | Base::Parent) {
             st.count("base_noncanonical");
         }
+        // outside the domain: the invariant prefix of the glob passes through a symbolic link
+        // (walkdir follows a root link by design)
+        {
+            let (pre, _) = glob.clone().partition();
+            let mut p = if case.shape == Shape::Rooted { std::path::PathBuf::new() } else { base_abs.clone() };
+            for c in pre.components() {
+                p = p.join(c);
+                if std::fs::symlink_metadata(&p).map(|m| m.file_type().is_symlink()).unwrap_or(false) {
+                    st.count("skipped_link_in_prefix");
+                    return Ok(());
+                }
+            }
+        }
+        if case.tree.nodes.iter().any(|n| matches!(n.kind, Kind::Link(_) | Kind::Dangling)) {
+            st.count("trees_with_links");
+        }
         // expected
         let uni = universe(&case.shape, &s, &base_given, &base_abs, false);
         let mut expected: BTreeMap<String, usize> = BTreeMap::new();
@@ -395,6 +411,14 @@ impl Property for C02 {
         let progs: Vec<regex::Regex> = glob.verif_walk_component_patterns().iter().filter_map(|p| regex::Regex::new(p).ok()).collect();
         let mut pruned = 0;
         for (_, cand, it) in &uni {
+            if let RefItem::Entry { is_link: true, .. } = it {
+                let comps: Vec<&str> = cand.split('/').filter(|c| !c.is_empty()).collect();
+                if let Some(last) = comps.len().checked_sub(1) {
+                    if last < progs.len() && !progs[last].is_match(comps[last]) {
+                        st.count("pruned_links");
+                    }
+                }
+            }
             if let RefItem::Entry { is_dir: true, .. } = it {
                 let comps: Vec<&str> = cand.split('/').filter(|c| !c.is_empty()).collect();
                 if let Some(last) = comps.len().checked_sub(1) {
